@@ -6,7 +6,7 @@ from hypothesis import strategies as st
 
 from .. import gen
 from ..common import Crash, graph_from_json, guarded, inconclusive, invalid_config, ok, violation
-from ..models import CYC_CLASSES, MIN_CLASSES, expand_nodes, run_model, solver_artifact, timed_out
+from ..models import CYC_CLASSES, MIN_CLASSES, ConstraintSpec, expand_nodes, run_model, solver_artifact, timed_out
 from ..oracle.routes import all_st_paths, check_route
 from ..oracle.width import dilworth
 
@@ -85,8 +85,9 @@ def run_case(case, tier="quick"):
         ignored = set(ign) if node_mode else {tuple(e) for e in ign}
         if any((x not in G.nodes) if node_mode else (not G.has_edge(*x)) for x in ignored):
             return invalid_config("ignored element not in graph")
-        constraints = kw.get("subset_constraints" if cyc else "subpath_constraints", [])
-        coverage = kw.get("subset_constraints_coverage" if cyc else "subpath_constraints_coverage", 1.0)
+        spec = ConstraintSpec(case, G)
+        constraints = spec.constraints
+        coverage = spec.coverage
         required = [v for v in G.nodes() if v not in ignored] if node_mode else [e for e in G.edges() if e not in ignored]
         if not required:
             return invalid_config("nothing left to cover")
@@ -108,6 +109,8 @@ def run_case(case, tier="quick"):
         labels.add("starts_ends")
     if constraints:
         labels.add("constraints")
+    if spec.by_length:
+        labels.add("length_coverage")
     w = reference_width(G, node_mode, ignored, starts, ends)
     if w is None:
         return invalid_config("too many poset items for the brute-force antichain")
@@ -136,18 +139,19 @@ def run_case(case, tier="quick"):
     # constrained minimum (DAG, exhaustive)
     wc = w
     exact_constrained = not constraints
-    if constraints and not cyc and not node_mode:
+    if constraints and not cyc:
         allp = all_st_paths(G, starts, ends, limit=14)
         if allp is not None:
-            sets = [set(zip(p[:-1], p[1:])) for p in allp]
-            cons = [[tuple(e) for e in c] for c in constraints]
+            allp = [p for p in allp if len(p) >= 1]
+            sets = [spec.elements_of(p) for p in allp]
+            pred = spec.predicate(sets)
             wc = None
-            for size in range(1, len(allp) + 1):
+            for size in range(1, min(len(allp), 6) + 1):
                 for sub in itertools.combinations(range(len(allp)), size):
                     cov = set().union(*(sets[i] for i in sub))
                     if not set(required) <= cov:
                         continue
-                    if all(any(sum(1 for e in c if e in sets[i]) >= len(c) * coverage - 1e-9 for i in sub) for c in cons):
+                    if pred(sub):
                         wc = size
                         break
                 if wc is not None:
@@ -180,12 +184,9 @@ def run_case(case, tier="quick"):
     miss = [x for x in required if x not in covered]
     if miss:
         return violation("not_covered", f"{miss} lie on no returned route {routes}", labels, facts=facts)
-    for c in constraints:
-        cc = [(x if node_mode else tuple(x)) for x in c]
-        sets = [set(rt) if node_mode else set(zip(rt[:-1], rt[1:])) for rt in routes]
-        need = len(set(cc)) * coverage if cyc else len(cc) * coverage
-        if not any(sum(1 for x in (set(cc) if cyc else cc) if x in s) >= need - 1e-9 for s in sets):
-            return violation("constraint_not_covered", f"constraint {c} (coverage {coverage}) in no single route of {routes}", labels, facts=facts)
+    um = spec.unmet(routes)
+    if um is not None:
+        return violation("constraint_not_covered", f"constraint {um} (coverage {coverage}{' by length' if spec.by_length else ''}) in no single route of {routes}", labels, facts=facts)
     n = len(routes)
     if cls in MIN_CLASSES:
         if n < w:
